@@ -1,10 +1,10 @@
 SPECIFICATION Spec
 CONSTANTS
-  Contents <- C3
+  Contents <- C5
   BoundModes <- BM1
   MenuKind = "focus"
-  MaxDepth = 5
-  StartChain = FALSE
+  MaxDepth = 3
+  StartChain = TRUE
   Emit = TRUE
 INVARIANT BagMatches
 INVARIANT ListMatches
